@@ -13,7 +13,7 @@ use crate::refmodel::value::RV;
 use crate::rng::Rng;
 use evalexpr::{Context, ContextWithMutableVariables, DefaultNumericTypes, EmptyContext, EmptyContextWithBuiltinFunctions};
 
-pub const OTHERS: [&str; 4] = ["foo", "math::nope", "str", "Typeof"];
+pub const OTHERS: [&str; 7] = ["foo", "math::nope", "str", "Typeof", "random", "str::regex_matches", "str::regex_replace"];
 const KINDS: usize = 7;
 const SWITCH: usize = 3;
 const FORMS: usize = 12;
@@ -37,6 +37,9 @@ fn forms(n: &str) -> Vec<String> {
 
 struct Matrix {
     names: Vec<&'static str>,
+    /// one precompiled tree per call form, evaluated against every configuration this worker visits: state kept
+    /// inside a tree (a resolved-callee cache, say) would leak from one context into the next
+    trees: std::collections::HashMap<String, evalexpr::Node>,
 }
 
 impl Matrix {
@@ -160,19 +163,22 @@ impl Phase for Matrix {
             },
             _ => c,
         };
+        let tree = match self.trees.remove(&src) {
+            Some(t) => t,
+            None => match api::build(&src) {
+                Built::Tree(t) => t,
+                _ => {
+                    out.violation("resolution/precompile", src.clone(), "precompiles".into(), "build_operator_tree failed".into());
+                    return;
+                },
+            },
+        };
         for entry in [Entry::StrImm, Entry::StrMut, Entry::TreeImm, Entry::TreeMut] {
             let rr = exec::run_ref(&ast, &model, entry.mutable());
             if matches!(rr.result, Err(RErr::Unclaimed(_))) {
                 out.count("cells the reference leaves unclaimed (skipped)");
                 continue;
             }
-            let tree = match api::build(&src) {
-                Built::Tree(t) => t,
-                _ => {
-                    out.violation("resolution/precompile", src.clone(), "precompiles".into(), "build_operator_tree failed".into());
-                    return;
-                },
-            };
             let (got, effects): (Got, Vec<crate::refmodel::eval::REvent>) = if kind == 5 {
                 // through a user-written context: the recorded calls identify the callee
                 let _ = observe::take_log(&log);
@@ -233,6 +239,7 @@ impl Phase for Matrix {
             }
         }
         out.sample(|| desc.clone());
+        self.trees.insert(src, tree);
         let _ = Context::are_builtin_functions_disabled(&c);
     }
 }
@@ -307,7 +314,10 @@ pub fn phases(cfg: &Cfg) -> Vec<Box<dyn Phase>> {
     let mut names: Vec<&'static str> = BUILTINS.to_vec();
     names.extend(OTHERS);
     vec![
-        Box::new(Matrix { names }),
+        Box::new(Matrix {
+            names,
+            trees: std::collections::HashMap::new(),
+        }),
         Box::new(Chains {
             n: cfg.n(60_000, 2_000_000),
         }),
